@@ -11,7 +11,9 @@ Inductive case15 :=
 (* EBB3.connect on a fresh object: ports, given name, script, observation *)
 | K15c (c : cfg) (ports : list portinfo) (given : option text) (sc : script) (ob : obs)
 (* a legacy gated helper against a script *)
-| K15g (g : gcall) (sc : script) (ob : gobs).
+| K15g (g : gcall) (sc : script) (ob : gobs)
+(* a history on one EBB3 object: connects (repeated), requests, disconnects *)
+| K15h (c : cfg) (sc : script) (h : list (call * obs)).
 
 Definition obool_eqb (a b : option bool) : bool := match a, b with Some x, Some y => Bool.eqb x y | None, None => true | _, _ => false end.
 Definition grv_eqb (a b : grv) : bool := match a, b with GNone, GNone => true | GBool x, GBool y => Bool.eqb x y | GText x, GText y => text_eqb x y | _, _ => false end.
@@ -29,6 +31,29 @@ Definition gated_prefix (g : gcall) : text :=
 Definition reported (sc : script) : option (list Z) :=
   match flat_map (fun e => match e with Line s => match split_once (T "Firmware Version ") s with (_, Some r) => [parse_version r] | _ => [] end | _ => [] end) sc with
   | v :: _ => v | [] => None end.
+
+(* the device identified itself as an EBB with firmware >= 3.0.2 in one of these events *)
+Definition ebb_supported (used : script) : bool :=
+  existsb (fun e => match e with
+                    | Line s => contains (strip s) (T "EBB") &&
+                                match split_once (T "Firmware Version ") (strip s) with
+                                | (_, Some r) => match parse_version r with Some v => ver_ge v [3; 0; 2] | None => false end
+                                | _ => false end
+                    | _ => false end) used.
+(* the gate over a history: nothing beyond the version probe is written before the device of the current connection has
+   identified itself as supported, and connect reports True-without-error only for such a device *)
+Fixpoint gate_ok (sc : script) (seen : bool) (h : list (call * obs)) : bool :=
+  match h with
+  | [] => true
+  | (k, ob) :: t =>
+      let used := firstn (o_consumed ob) sc in
+      let ok_now := seen || ebb_supported used in
+      forallb (fun w => text_eqb w (T "v") || ok_now) (o_writes ob) &&
+      (match k with
+       | CConnect _ _ => if rv_eqb (o_ret ob) (RBool true) && match o_err ob with None => true | Some _ => false end then ok_now else true
+       | _ => true end) &&
+      gate_ok (skipn (o_consumed ob) sc) (match k with CDisconnect | CReboot | CBootload => false | _ => ok_now end) t
+  end.
 
 Definition check15 (k : case15) : Z :=
   match k with
@@ -66,5 +91,6 @@ Definition check15 (k : case15) : Z :=
                         then match reported (firstn (go_consumed ob) sc) with Some v => ver_ge v (threshold g) | None => false end
                         else true) in
       code_of mis spec
+  | K15h c sc h => code_of (0 <=? replay c init sc h 0) (negb (gate_ok sc false h))
   end.
 Definition run15 (cs : list case15) := report (map check15 cs).
